@@ -71,8 +71,12 @@ def generate(prng, tier, index):
     g = gen_graph(prng)
     pol = prng.choice(({}, {"float": "extreme"}, {"float": "lo"}, {"float": "hi"}, {"float": "mix", "p": 0.3},
                        {"float": "mix", "p": 0.7}))
-    return {"variant": "clean", "graph": g, "phis": [prng.choice(PHIS) for _ in range(prng.randrange(1, 4))],
-            "policy": pol, "attrs": prng.random() < 0.5}
+    sc = {"variant": "clean", "graph": g, "phis": [prng.choice(PHIS) for _ in range(prng.randrange(1, 4))],
+          "policy": pol, "attrs": prng.random() < 0.5}
+    if index % 6 == 5:
+        sc["variant"] = "faults"
+        sc["abort_line"] = prng.randrange(0, 12)
+    return sc
 
 
 def build(g, attrs):
@@ -90,7 +94,8 @@ def build(g, attrs):
 
 
 def snapshot(G):
-    return (sorted((repr(v), sorted(d.items())) for v, d in G.nodes(data=True)),
+    return (sorted((str(k), repr(v)) for k, v in G.graph.items()),
+            sorted((repr(v), sorted(d.items())) for v, d in G.nodes(data=True)),
             sorted((sorted(map(repr, (u, v))), sorted(d.items())) for u, v, d in G.edges(data=True)))
 
 
@@ -101,6 +106,10 @@ def execute(sc, ctx):
     largest = max(len(c) for c in nx.connected_components(G))
     before = snapshot(G)
     src = ctx.source("perc", sc.get("policy"))
+    if sc.get("abort_line") is not None:
+        st, _ = ctx.call(src, bond_percolate, G, sc["phis"][0], abort_at_line=sc["abort_line"], budget=4 * G.number_of_edges() + 1000,
+                         label="percolate[interrupted at line]")
+        ctx.expect(f"{P}.input", snapshot(G) == before, "input graph modified by an interrupted bond_percolate")
     for phi in sc["phis"]:
         # decision budget scales with the input: one draw per edge is what the helper needs; 4x + slack is generous,
         # and exhausting it means "no result" (a fixed 10000 false-alarmed on graphs with more than 10000 edges)
